@@ -22,6 +22,15 @@ def run_check(pid, tier, repo_root, write_evidence=True):
         repo = Repo(repo_root)
         world = World(repo)
         mod.check(run, repo, world)
+        if tier == "thorough" and not os.environ.get("DALINT_NO_SELFTEST"):
+            from .core import load_known
+            from .selftest import selftest
+            kset = {(k["property"], k["key"])
+                    for k in load_known().get("known", [])}
+            if all((pid, f.key) in kset for f in run.findings):
+                # the tree itself is clean: try the rules both ways on
+                # scratch copies of it (evidence about the checker)
+                run.selftest = selftest(pid, repo_root)
         return finish(run, write_evidence=write_evidence)
     except AnalysisError as e:
         print("ANALYSIS-ERROR property=%s %s" % (pid, e))
